@@ -47,4 +47,37 @@ PROPS = {
              'token and then leaves it before depth is reached; distinct = distinct case text',
         explanation='C08_checker_sound: eval_check accepted => the answer is exact. D2 (unmatched token skipped) was repaired by a fix: commit.',
     ),
+    'C12': dict(
+        level='proof',
+        level_text='Rocq theorems for all grammars: the model of augment_grammar preserves the language and isolates the start symbol '
+                   '(C12_augment_lang, C12_augment_isolated), and any result accepted by the executable augment_check is isolated and '
+                   'language-equivalent (C12_checker_sound). Tie to the code: augment_check applied to the real augment_grammar on random '
+                   'BNF grammars (single-production recursive starts, multi-production starts, colliding names); fallback search with the '
+                   'verified recogniser `member` when the result has an unexpected shape.',
+        level_note='Trusted: Coq kernel, extraction, OCaml driver, Rust harness (Cfg <-> S-expression conversion). generate_name freshness is '
+                   'checked on the real result (start of result not among input non-terminals), not assumed.',
+        technique='Rocq proof (induction on derivations) + checker-style correspondence via extraction; verified CFG recogniser as fallback oracle',
+        streams=[dict(cmd='c12', quick=3000, thorough=100000)],
+        rule='random BNF grammars (<=5 non-terminals, <=4 terminals, some unproductive holes; 1/3 forced single-production start; 1/5 names '
+             'S,S0,S1.. colliding with generated names) + D1 witnesses; non-trivial = start symbol occurs on a right-hand side or has >=2 '
+             'productions; distinct = distinct case text',
+        explanation='C12_checker_sound: augment_check accepted => isolated start and same language. D1 (recursive single-production start not '
+                    'augmented) was repaired by a fix: commit.',
+    ),
+    'C11': dict(
+        level='proof',
+        level_text='Rocq theorems for all BNF grammars about faithful models of the four fixpoint computations and of the decision order of '
+                   'check_and_transform_grammar: the computed sets are exactly nullable / unproductive / (un)reachable / left-recursive as '
+                   'defined by derivations and closures, and the decision names exactly the offending non-terminals (C11_*_exact, '
+                   'C11_check_decision_exact). Tie to the code: proved set-equality checkers applied to the outputs of the real functions '
+                   'on a stride sample (quick) or the complete enumeration (thorough) of 53,592 tiny grammars plus random grammars.',
+        level_note='Trusted: Coq kernel, extraction, OCaml driver, Rust harness. Theorems are about the models; the real functions are '
+                   'compared with the proved sets on the explored grammars.',
+        technique='Rocq proof (fixpoint iteration sound by induction on rounds, complete by closure) + checker-style correspondence via extraction',
+        streams=[dict(cmd='c11', quick=3000, thorough=60000)],
+        rule='all BNF grammars with <=2 non-terminals, <=2 terminals, 1-2 alternatives each, right-hand sides <=2 (53,592; thorough: all, '
+             'quick: every 23rd) + random BNF grammars (<=6 non-terminals, nullable-heavy, holes); non-trivial = some computed set is non-empty; '
+             'distinct = distinct case text',
+        explanation='C11_*_check_* theorems: a claimed set accepted by the checker is exactly the defined set.',
+    ),
 }
